@@ -12,8 +12,8 @@ CLAIMED = {
          'proof in Coq (parser/printer inversion for the component grammar) + byte-exact correspondence + verified strict component reader as oracle'),
  'C03': ('7 C03', 'Coq theorems C03_decode (dec_fdata (fdata_body o n slots) = (o, n, slots), nothing left), C03_rows / C03_count (one type-0 IFLR per row, numbered in input order, never dropped), C03_file (C02 instantiated); values are bit patterns; tie: frames over 8 dtypes x byte order x width x layout x cast x source kind, every frame-data record read back by the strict reader decoded with the declared layout and compared bit for bit with numpy-computed expectations, and with the model encoder',
          'proof in Coq (decoder inversion by induction over slots and elements) + reader judgement of real files + correspondence'),
- 'C05': ('7 C05', 'Coq theorems C05_assign_value / C05_assign_units (an assignment stores exactly the converter result in exactly the assigned part; everything else unchanged) and C05_value_readback (stored value -> decoded value) over Model/Convert.v + Model/Builder.v (schema regenerated from /repo); the end-to-end claim is checked per run: K-api byte-exact correspondence of whole programs with the model, and every decoded attribute of implementation output compared with the last accepted assignment computed from the operation list',
-         'proof in Coq (frame rule of assignment, value read-back) + byte-exact K-api correspondence + reader judgement against op-list expectations (partial: no single end-to-end theorem)'),
+ 'C05': ('7 C05', 'Coq theorems C05_assign_value / C05_assign_units (an assignment stores exactly the converter result in exactly the assigned part; everything else unchanged) and C05_value_readback (stored value -> decoded value), C05_api_frame (no API call touches the attribute state of an existing object except an assignment to it), C05_record_is_the_set (every record decodes to exactly the set of the state the encoder leaves) and C05_write_changes_only_defaults (a write, successful or not, in every reachable state changes attribute values / units only at the write-time default sites, and only where nothing or a falsy value was given; the site list is regenerated from the syntax trees of /repo on every run and proved equal to the sites of the theorem in GenFacts/SitesOK.v) over Model/Convert.v + Model/Builder.v + Model/Write.v (schema regenerated from /repo); the composition into the end-to-end claim is checked per run: K-api byte-exact correspondence of whole programs with the model, and every decoded attribute of implementation output compared with the last accepted assignment computed from the operation list; attribute state of every object before / after DLISFile.write compared against the regenerated sites',
+         'proof in Coq (frame rules of assignment, of the API and of the write; record = set; value read-back) + byte-exact K-api correspondence + reader judgement against op-list expectations (partial: no single end-to-end theorem)'),
  'C07': ('7 C07', 'Coq theorems C07_identity_in_set / C07_copy_numbers: in every reachable builder state (induction over all operation lists incl. rejected calls) the copy number of an object is the number of earlier same-named objects of its set, hence (name, copy) is injective per set; C07_reference_roundtrip; refuted across named sets (C07_refuted_named_sets = known finding D13); tie: K-api correspondence, decoded identities / references / origins of implementation output',
          'proof in Coq (invariant by induction over operation lists) + K-api correspondence + reader judgement'),
  'C08': ('7 C08', 'Coq theorems C08_descr (code = written dtype, DIMENSION = per-row shape, ELEMENT-LIMIT bounds it, user values kept or rejected), C08_length (record length formula), C08_slicing; tie: decoded CHANNEL/FRAME objects and FDATA lengths of real files vs Model/Data.v channel_setup over casts, widths, user dimension/limit consistent or not, shared / aliased / orphan channels',
